@@ -240,6 +240,12 @@ def rule_unlisted(d, p):
     return lambda nb: ([p] if p <= len(nb) else []) + ([0] if p != 0 or p > len(nb) else [])
 
 
+def rule_keeps_pos(d, p):
+    """In-place operations that the statement does not list as moving pos (<<=, >>=, reverse, rol, ror, set, invert, byteswap, &= |= ^=, *=):
+    'other operations move pos only as documented' - pos stays; only if it no longer fits (a *= 0) is 0 the one valid choice left."""
+    return lambda nb: [p] if p <= len(nb) else [0]
+
+
 def selftest():
     assert read_token('00010110', 0, 'u3') == ok(0, '00010110', 3)
     assert read_token('0001', 0, 'hex') == ok('1', '0001', 4)
